@@ -305,7 +305,7 @@ class Template:
             # if template filename and a module directory, load
             # a filesystem-based module file, generating if needed
             if module_filename is not None:
-                path = module_filename
+                path = os.path.abspath(module_filename)
             elif module_directory is not None:
                 path = os.path.abspath(
                     os.path.join(
